@@ -266,6 +266,15 @@ def run(ctx) -> None:
         rep.violate("C06.R1", W, hnode.ast, "after a miss the component does not subscribe to resource_added before waiting (no path reaches the subscriber-list insertion)")
     rep.floor("C06.R1", len(win.functions_on_path) + 1, 2)
     rep.extra["c06_window_functions"] = list(reversed(win.functions_on_path))
+    # a miss of a non-optional request always leads to the wait: the handler never gives up
+    # (re-raises / returns) before it has waited
+    cp_nodes = [n.id for n in wcfg.live_nodes() if n.id in wcfg.reach([hnode.id]) and a.node_checkpoints(W, wcfg, n)]
+
+    def _deliberate(src, dst, lab):
+        return lab not in ("e", "h") or (src.kind == "stmt" and isinstance(src.ast, ast.Raise))
+
+    gives_up = not cp_nodes or not wcfg.all_paths_pass(hnode.id, [wcfg.exit, wcfg.raise_exit], cp_nodes, edge_ok=_deliberate)
+    rep.check("C06.R1", not gives_up, W, hnode.ast, "after a miss every path through the handler reaches the wait (the request is never failed before it has waited)", "after a miss some path leaves the handler (raise / return) without waiting: a request made while the resource is not there yet - e.g. from prepare() - fails immediately instead of waiting for the publication")
 
     # ------------------------------------------------------------------ R2 publish before announce
     sites = 0
@@ -427,6 +436,11 @@ def run(ctx) -> None:
 
     # ------------------------------------------------------------------ R7 the wait queue cannot evict the matching event
     _queue_rule(ctx, an, sa, W, wcfg, hnode)
+    # the publication side: the name a component's default-named resource is published under
+    # (alias remapping, only while start() runs) decides whom it wakes - C14.R4
+    from .common import include_rules
+
+    include_rules(ctx, "c14", "C06.R6", only=("C14.R4",))
 
 
 def _queue_rule(ctx, an: Anchors, sa: SignalAnchors, W: FuncInfo, wcfg: CFG, hnode: Node) -> None:
